@@ -26,9 +26,9 @@ def seed_table():
 
 def history_table():
     out = ['| seed | detection history |', '|---|---|']
-    for d in sorted(glob.glob(os.path.join(V, "seeded", "*-[345678]")) + glob.glob(os.path.join(V, "seeded", "*-[mic][1-5]"))):
+    for d in sorted(glob.glob(os.path.join(V, "seeded", "*-[345678]")) + glob.glob(os.path.join(V, "seeded", "*-[micpx][1-5]"))):
         m = json.load(open(os.path.join(d, 'meta.json')))
-        if (d[-1] in '678' or d[-2] in 'mic') and m.get('detection_history', '').startswith('caught as first run'):
+        if (d[-1] in '678' or d[-2] in 'micpx') and m.get('detection_history', '').startswith('caught as first run'):
             continue   # round 6: only the three that were not caught as first run are listed
         out.append(f"| {os.path.basename(d)} | {ab(m.get('detection_history', ''), 900)} |")
     return '\n'.join(out)
